@@ -47,7 +47,7 @@ ASSUMPTIONS = [
 def plan(tier: str) -> dict:
     if tier == "thorough":
         return {"shards": 16, "examples": 2500, "full_enum": True}
-    return {"shards": 16, "examples": 200, "full_enum": False}
+    return {"shards": 16, "examples": 600, "full_enum": True}
 
 
 # {{{ NumPy interpretation of a HighLevelOp
@@ -107,6 +107,16 @@ def interpret(hlo, il, ev: RefEval) -> np.ndarray:
                          np.asarray(val(hlo.else_)).astype(il.dtype))
         elif isinstance(hlo, R.BroadcastOp):
             r = val(hlo.x)
+            # a broadcast converts nothing: reading a type conversion as a
+            # plain broadcast silently drops it
+            # (judged where the lambda spells the conversion out, as every
+            # API-built one does; a hand-written lambda whose dtype merely
+            # differs from its binding's has no conversion to lose)
+            if np.asarray(r).dtype != np.dtype(il.dtype) and "TypeCast" in repr(
+                    il.expr):
+                raise ValueError(
+                    f"BroadcastOp of a {np.asarray(r).dtype} array for an "
+                    f"index lambda of dtype {il.dtype}: a conversion is lost")
         elif isinstance(hlo, R.LogicalNotOp):
             r = np.logical_not(val(hlo.x))
         elif isinstance(hlo, R.ZerosLikeOp):
@@ -581,7 +591,49 @@ def run_shard(shard: int, nshards: int, seed: int, tier: str) -> ShardResult:
             res.fail(f, {"hand": desc})
 
     hyp_run(near_miss(), body, seed, pl["examples"])
+    for k, desc in enumerate(permuted_reductions()):
+        if k % nshards == shard:
+            res.count("enumerated_permuted_reductions")
+            body(desc)
     return res
+
+
+def permuted_reductions():
+    """reductions over one axis of x whose remaining axes appear in the
+    result in every order (and repeated), on shapes where the axis lengths
+    coincide - where a positional check cannot tell x[_1, r, _0] from
+    x[_0, r, _1]"""
+    import itertools
+    shapes = [(3, 3, 3), (2, 3, 2), (3, 2, 2), (2, 2, 3), (3, 3), (2, 3),
+              (3, 2)]
+    for S in shapes:
+        for rpos in range(len(S)):
+            if S[rpos] != 3:
+                continue
+            rest = [a for a in range(len(S)) if a != rpos]
+            for out_nd in range(1, len(rest) + 1):
+                for assign in itertools.product(range(out_nd),
+                                                repeat=len(rest)):
+                    if set(assign) != set(range(out_nd)):
+                        continue
+                    lens = {}
+                    ok = True
+                    for a, v in zip(rest, assign):
+                        if lens.setdefault(v, S[a]) != S[a]:
+                            ok = False
+                    if not ok:
+                        continue
+                    idx = []
+                    it = iter(assign)
+                    for a in range(len(S)):
+                        idx.append(["r", 0] if a == rpos else ["v", next(it)])
+                    for op in ("sum", "max"):
+                        yield {"shape": [lens[v] for v in range(out_nd)],
+                               "dtype": "float64",
+                               "bindings": [{"name": "x", "shape": list(S),
+                                             "dtype": "float64"}],
+                               "expr": ["reduce", op, {"_r0": [0, 3]},
+                                        ["sub", "x", idx]]}
 
 
 def replay(case) -> Failure | None:
